@@ -307,6 +307,11 @@ func (s *Sched) Run(maxSteps int) error {
 			if en[i].Key != en[j].Key {
 				return en[i].Key < en[j].Key
 			}
+			// two goroutines woken at the same simulated instant (equal timers) reach the same park site
+			// in an order the Go runtime decides: order them by owner, arrival order only as a last resort
+			if en[i].Owner != en[j].Owner {
+				return en[i].Owner < en[j].Owner
+			}
 			return en[i].seq < en[j].seq
 		})
 		hasFirst := false
